@@ -1,5 +1,6 @@
 import Pk.FitLaws
 import Pk.MatFlow
+import Pk.InvFlow
 /-! # C01 — Lift then retract returns the original data for every pipeline
 
 For every tree of lifting functions (all ten kinds, nested `SplitPipeline` / `KoopmanPipeline` to any
@@ -69,6 +70,18 @@ theorem C01_roundtrip_full (hL : ops.Lawful ok) (s : S) (nx nu : Nat) (w' : Nat 
   rw [C01_roundtrip_ep ops ok hL s nx nu w' hfit X hX hdom hmin, gain_eq_loss s heq]
   rw [Stage.nSamplesIn_eq] at hmin
   exact lastN_all _ _ (by omega)
+
+/-- **matrix level, any episode layout**: for every label, `inverse_transform(transform(X))` restricted to that
+label is the trailing part of that episode of `X` (guard: no episode shorter than `min_samples_`) -/
+theorem C01_roundtrip_mat (hL : ops.Lawful ok) (s : S) (nx nu : Nat) (w' : Nat × Nat)
+    (hfit : Stage.fit s (nx, nu) = .ok w') (X : M α)
+    (hG : Guard (Stage.nSamplesIn s 1) X) (hX : ∀ l, Typed nx nu (episodeOf l X))
+    (hdom : ∀ l, Stage.dom (rowFn ops ok) s (episodeOf l X)) (l : Nat) (hl : l ∈ labels X) :
+    episodeOf l (Stage.mi (rowFn ops ok) s (nx, nu) (Stage.mt (rowFn ops ok) s X))
+      = lastN ((episodeOf l X).length - Stage.loss s + Stage.gain s) (episodeOf l X) := by
+  rw [Stage.mi_refines, Stage.mt_refines (rowFn ops ok) s X
+    (by rw [Stage.nSamplesIn_eq] at hG; rwa [Nat.add_comm]) l]
+  exact C01_roundtrip_ep ops ok hL s nx nu w' hfit _ (hX l) (hdom l) (hG l hl)
 
 /-- the retracted episode is never shorter than the lifted one, never longer than the original -/
 theorem C01_retract_len (s : S) : Stage.gain s ≤ Stage.loss s := Stage.gain_le_loss s
